@@ -271,6 +271,21 @@ fn leap_seconds_off_the_minute(acc: &mut Acc) {
         let t: NaiveTime = NaiveTime::from_hms_nano_opt(23, 59, 59, 1_999_999_999).unwrap();
         one(acc, "leap_second_at_59", "NaiveTime", t);
     }
+    // DateTime<Local> whose offset is not the one the process zone assigns to that instant (Local's offset type is a plain
+    // FixedOffset, and a public constructor takes any): the wire carries the wall clock only
+    {
+        use chrono::Local;
+        let naive = NaiveDate::from_ymd_opt(2024, 1, 15).unwrap().and_hms_opt(12, 0, 0).unwrap();
+        let own = Local.from_utc_datetime(&naive);
+        one(acc, "local_time_with_the_zone_s_own_offset", "DateTime<Local>", own);
+        let own_offset = chrono::Offset::fix(own.offset()).local_minus_utc();
+        for delta in [3600, -3600, 30] {
+            if let Some(off) = FixedOffset::east_opt(own_offset + delta) {
+                let foreign: DateTime<Local> = DateTime::<Local>::from_naive_utc_and_offset(naive, off);
+                one(acc, "local_time_with_a_foreign_offset", "DateTime<Local>", foreign);
+            }
+        }
+    }
     for secs in [30, -1, 19 * 60 + 32, 86_399, -86_399] {
         let off = FixedOffset::east_opt(secs).unwrap();
         let dt = leap_utc.with_timezone(&off);
@@ -408,6 +423,20 @@ fn names_that_come_back(acc: &mut Acc) {
         a: u8,
         y: Option<u8>,
     }
+    // a tuple variant whose *first* element goes while a later one stays: legal on the wire (the removed element is the
+    // only field of chunk 0, the survivor lives in chunk 1), but the survivor is now called field0 — by position
+    #[derive(BinaryCodec, Debug, PartialEq, Clone)]
+    enum FirstElementGone {
+        #[evolution(FieldAdded("field1", 9u8), FieldRemoved("field0"))]
+        V(u8),
+    }
+    #[derive(BinaryCodec, Debug, PartialEq, Clone)]
+    enum FirstFieldGone {
+        #[evolution(FieldAdded("b", 9u8), FieldRemoved("a"))]
+        V { b: u8 },
+    }
+    one(acc, "control_struct_variant_first_field_removed", FirstFieldGone::V { b: 5 });
+    one(acc, "tuple_variant_first_element_removed", FirstElementGone::V(5));
     one(acc, "control_fresh_name_made_optional", FreshThenOptional { a: 1, y: Some(2) });
     one(acc, "reused_name_made_optional", ReusedThenOptional { a: 1, x: Some(2) });
     one(acc, "reused_name_after_transient_made_optional", TransientThenOptional { a: 1, x: Some(2) });
